@@ -14,6 +14,7 @@ import (
 	"github.com/enfein/mieru/v3/apis/model"
 	"github.com/enfein/mieru/v3/pkg/appctl/appctlpb"
 	"github.com/enfein/mieru/v3/pkg/common"
+	"github.com/enfein/mieru/v3/pkg/egress"
 	"github.com/enfein/mieru/v3/pkg/log"
 	"github.com/enfein/mieru/v3/pkg/stderror"
 )
@@ -129,6 +130,26 @@ func (s *Server) handleAssociate(ctx context.Context, req *model.Request, proxyC
 	return s.handleAssociatePacketOverStream(ctx, req, proxyConn)
 }
 
+// udpDestinationFilter returns a filter that rejects UDP associate packets
+// to private and loopback destinations, unless the user of the proxy
+// connection is allowed to access them.
+func (s *Server) udpDestinationFilter(ctx context.Context, proxyConn net.Conn) udpDestinationFilter {
+	in := egress.Input{
+		Protocol: appctlpb.ProxyProtocol_SOCKS5_PROXY_PROTOCOL,
+	}
+	if userCtx, ok := proxyConn.(apicommon.UserContext); ok && userCtx.UserName() != "" {
+		in.Env = map[string]string{
+			"user": userCtx.UserName(),
+		}
+	}
+	return func(dst model.AddrSpec) bool {
+		// The destination of a UDP packet is checked in the same way as
+		// the destination of a connect request.
+		req := &model.Request{Command: constant.Socks5ConnectCmd, DstAddr: dst}
+		return s.rejectPrivateAndLoopbackIPAction(ctx, in, req).Action != appctlpb.EgressAction_REJECT
+	}
+}
+
 func (s *Server) handleAssociatePacketOverStream(ctx context.Context, _ *model.Request, proxyConn net.Conn) error {
 	// Create a UDP listener on a random port.
 	// All the requests associated to this connection will go through this port.
@@ -158,7 +179,7 @@ func (s *Server) handleAssociatePacketOverStream(ctx context.Context, _ *model.R
 		return fmt.Errorf("failed to send reply: %w", err)
 	}
 
-	return RunUDPAssociateLoop(udpConn, apicommon.NewPacketOverStreamTunnel(proxyConn), s.config.Resolver)
+	return runUDPAssociateLoop(udpConn, apicommon.NewPacketOverStreamTunnel(proxyConn), s.config.Resolver, s.udpDestinationFilter(ctx, proxyConn))
 }
 
 func (s *Server) handleAssociateDatagram(ctx context.Context, _ *model.Request, proxyConn net.Conn) error {
@@ -188,7 +209,7 @@ func (s *Server) handleAssociateDatagram(ctx context.Context, _ *model.Request, 
 		return fmt.Errorf("failed to send reply: %w", err)
 	}
 
-	return runUDPAssociateDatagramLoop(udpConn, proxyConn, s.config.Resolver)
+	return runUDPAssociateDatagramLoop(udpConn, proxyConn, s.config.Resolver, s.udpDestinationFilter(ctx, proxyConn))
 }
 
 // handleForwarding forward the request to the egress proxy.
